@@ -610,6 +610,36 @@ func checkC01(p *Program, r *Report) {
 	c01membership(p, r, addrTypes)
 	c01hashing(p, r, addrTypes)
 	c01total(p, r, addrTypes)
+	// round 7 (C01-agent7-m3): a setter of an address type stores its argument on every path (a range guard that is off by
+	// one silently dropped SetFormat(PKFHybrid), so the hybrid rendering could not be reached any more)
+	for _, nt := range addrTypes {
+		for _, m := range p.Methods("", nt.Obj().Name()) {
+			if m.Signature.Results().Len() != 0 || len(m.Params) != 2 || m.Object() == nil || !m.Object().Exported() {
+				continue
+			}
+			arg := ssa.Value(m.Params[1])
+			for _, b := range m.Blocks {
+				for _, in := range b.Instrs {
+					st, ok := in.(*ssa.Store)
+					if !ok || st.Val != arg {
+						continue
+					}
+					if _, isF := st.Addr.(*ssa.FieldAddr); !isF {
+						continue
+					}
+					r.Add("C01.setter", FnName(m), "the setter stores its argument on every path", st.Pos(), dominatesAllReturns(m, b), "the store is skipped on some path: the requested value is silently ignored")
+				}
+			}
+		}
+	}
+	// round 7 (C01-agent7-m1): NewAddressPubKey refuses a serialised key only because the curve package's parser does
+	// (or for its format byte) — a hybrid-key "parity check" reading byte 32 refused half of all hybrid keys
+	if nk := p.Func("", "NewAddressPubKey"); nk != nil {
+		if rejectionVocabulary(p, r, "C01.accepts", nk, []string{`call .*bchec\.ParsePubKey#\d`, `call .*bchec\.ParsePubKey`, `param \w+\[0\]`},
+			"the parser's verdict and the format byte") == 0 {
+			r.Unresolved("C01.accepts", "refusals of NewAddressPubKey")
+		}
+	}
 	addrPureRule(p, r, "C01.pure", addrTypes)
 	r.Floor("C01.pure", 10)
 	// round 6 (C01-agent6-m1/m2): "decoding … the lower-case, upper-case and prefix-qualified renderings" rests on how
